@@ -42,9 +42,64 @@ Example c14_nonvacuous :
   field_names_distinct p /\ walrus_entries p <= 1.
 Proof. split; [vm_compute; reflexivity|vm_compute; auto]. Qed.
 
+(* the DWARF switch and all 2^3 combinations: [dw] = the sections the (unmodelled) DWARF emitter writes; with generation off
+   the output does not depend on them and contains no debug section at all; with it on exactly [dw] is added at its place;
+   the three switches factor: every combination is the all-on stream minus the sections of the switches that are off *)
+From WV Require Import Proofs.Switches.
+Theorem c14_dwarf_switch_off :
+  forall (m : wir) (ilen : wins -> N) (dw : list wsec),
+         cf_generate_dwarf (m_config m) = false -> emitM m ilen dw = emitM m ilen [].
+Proof. exact dwarf_switch_off. Qed.
+
+Theorem c14_dwarf_off_no_debug_section :
+  forall (m : wir) (ilen : wins -> N) (dw : list wsec) (e : emitted),
+         cf_generate_dwarf (m_config m) = false ->
+         emitM m ilen dw = Ok e -> forall s : wsec, In s (em_secs e) -> is_debug_sec s = false.
+Proof. exact dwarf_off_no_debug. Qed.
+
+Theorem c14_dwarf_switch_on :
+  forall (m : wir) (ilen : wins -> N) (dw : list wsec),
+         cf_generate_dwarf (m_config m) = true ->
+         (forall e0 : emitted,
+          emitM m ilen [] = Ok e0 ->
+          exists pre : list wsec,
+            em_secs e0 = pre ++ sec_customs (m_customs m) /\
+            emitM m ilen dw =
+            Ok
+              {|
+                em_secs := pre ++ dw ++ sec_customs (m_customs m);
+                em_module := em_module e0;
+                em_x2i := em_x2i e0;
+                em_fns := em_fns e0
+              |}) /\
+         (forall e : emitted, emitM m ilen dw = Ok e -> exists e0 : emitted, emitM m ilen [] = Ok e0).
+Proof. exact dwarf_switch_on. Qed.
+
+Theorem c14_all_switch_combinations :
+  forall (m : wir) (ilen : wins -> N) (dw : list wsec) (e : emitted),
+         emitM (set_switches m false false true) ilen dw = Ok e ->
+         exists front nm pr cu : list wsec,
+           em_secs e = front ++ nm ++ pr ++ dw ++ cu /\
+           plain_secs front /\
+           (nm = [] \/ (exists n : wnames, nm = [S_Custom (CS_Name (Some n))])) /\
+           pr = producers_sec m /\
+           cu = sec_customs (m_customs m) /\
+           (forall sn sp gd : bool,
+            exists e' : emitted,
+              emitM (set_switches m sn sp gd) ilen dw = Ok e' /\
+              em_secs e' =
+              front ++ (if sn then [] else nm) ++ (if sp then [] else pr) ++ (if gd then dw else []) ++ cu /\
+              em_x2i e' = em_x2i e /\ em_fns e' = em_fns e /\ em_module e' = set_switches m sn sp gd).
+Proof. exact switches_factor. Qed.
+
+
 Print Assumptions c14_name.
 Print Assumptions c14_producers.
 Print Assumptions c14_processed_by_once.
 Print Assumptions c14_processed_by_idempotent.
 Print Assumptions c14_other_fields_kept.
 Print Assumptions c14_callback.
+Print Assumptions c14_dwarf_switch_off.
+Print Assumptions c14_dwarf_off_no_debug_section.
+Print Assumptions c14_dwarf_switch_on.
+Print Assumptions c14_all_switch_combinations.
